@@ -68,7 +68,7 @@ AVL_LABELS = ["rotate_left", "rotate_right", "rotate_left_right", "rotate_right_
 
 
 def _avl_parts(height, parts, sample=0):
-    return [["mode=exh", "height=%d" % height, "part=%d" % i, "parts=%d" % parts] + (["sample=%d" % sample] if sample else []) for i in range(parts)]
+    return [["mode=exh", "height=%d" % height, "part=%d" % i, "parts=%d" % parts, "cpu_limit=0"] + (["sample=%d" % sample] if sample else []) for i in range(parts)]
 
 
 PROPS["C16"] = dict(
@@ -212,6 +212,14 @@ PROPS["C18"] = dict(
     level_note="trusted: ASan/UBSan/LSan runtimes, /proc/self/fd and /proc/self/task as ground truth for descriptors and threads, the harness programs.",
     technique="property-based testing under AddressSanitizer/UBSan/LeakSanitizer: seeded generated programs replayed over init/deinit cycles with an exact resource-equality oracle; choice-sequence shrinking",
     design_ref="DESIGN.md section 3 (C18)")
+PROPS["C15"] = dict(
+    level="fault_enumeration", labels=LOOP_LABELS, engine="loop", custom="c15",
+    campaigns=[("loop", ["profile=all"], 0, 0)],
+    rule="see evidence (written by bin/c15.py)",
+    level_text="fault enumeration: for every sampled program and each of the 4 poll methods, EINTR at every k-th wait call (exhaustive in k up to a bound), every optional system call failing with ENOSYS / EPERM / EINVAL from the first or from the k-th call, and generated method-exclusion strings; every run judged by all loop oracles, interrupted runs additionally compared with the uninterrupted run",
+    level_note=_COMMON_NOTE + " Exhaustive in k for each program (up to the stated bound), sampled in programs; splice / pipe2 fallbacks are exercised by the pump target (C17), the cross-thread kick transports by C08/C09.",
+    technique="fault injection enumeration at the system-call boundary over seeded generated programs, with the C01-C09 shadow-model oracles and a differential (same action sequence) oracle for interrupted waits",
+    design_ref="DESIGN.md section 3 (C15)")
 
 ENGINES = [
     dict(name="vfz", path="harness/vfz.c", serves_properties=["C01", "C02", "C03", "C04", "C06", "C07"],
@@ -297,6 +305,9 @@ def replay(prop, spec, path):
 
 
 def run_check(prop, spec, tier, seed, scale, write_evidence=True):
+    if spec.get("custom") == "c15":
+        import c15
+        return c15.run(prop, spec, tier, seed, scale, write_evidence)
     t0 = time.time()
     outdir = os.path.join(vlib.BUILD, "run", "%s-%d" % (prop, os.getpid()))
     os.makedirs(outdir, exist_ok=True)
